@@ -111,7 +111,17 @@ def rand_cfg(rng, wild):
         kw["note_values"] = rng.choice([[2, 4, 8, 16], [24, 12, 6], [6, 12, 18, 36], [1, 2, 3, 4], [12]])
     if wild and r < 0.2:
         kw["note_values"] = rng.choice([[], [9, 3, 3], [-2, 4], [100, 4, 250], [0, 6]])
+    # repeated entries in the user-supplied lists (finding D31; `__init__` stores sorted(set(…)) since its repair): positive values, so
+    # that tokenise / detokenise / encode / decode are exercised on these configurations as well
+    if rng.random() < 0.2:
+        kw["step_sizes"] = rng.choice([[4, 4, 8], [2, 2, 2], [8, 4, 8, 4], [12, 6, 12], [3, 1, 2, 3, 1], [24, 24]])
+    if rng.random() < 0.2:
+        kw["note_values"] = rng.choice([[12, 12, 24], [6, 6], [24, 12, 6, 12, 24], [4, 8, 4], [36, 18, 36, 9, 9]])
     return kw
+
+
+def has_dup(kw):
+    return any(l is not None and len(set(l)) != len(l) for l in (kw["step_sizes"], kw["note_values"]))
 
 
 def L_cfg(kw):
@@ -263,12 +273,14 @@ def main():
     n = int(sys.argv[1]) if len(sys.argv) > 1 else 60
     rng = random.Random(int(sys.argv[2]) if len(sys.argv) > 2 else 20260930)
     cases = []     # (label, lean string expression, expected)
+    n_dup = 0
     for i in range(n):
         wild = i % 3 == 2
         kw = rand_cfg(rng, wild)
         cfg = L_cfg(kw)
         ev = exp_vocab(kw)
         cases.append((f"vocab#{i} {kw}", f"withObj ({cfg}) pVocab", ev))
+        n_dup += has_dup(kw)
         if ev.startswith("ERR"):
             continue
         tk = build(kw)
@@ -329,6 +341,7 @@ def main():
         print(res.stdout[-3000:], res.stderr[-3000:])
     for kind, (tot, b, errs) in kinds.items():
         print(f"{kind}: {tot} cases ({errs} where the real code raises), {b} differences")
+    print(f"configurations with a repeated entry in step_sizes / note_values: {n_dup} of {n}   (SCODA_REPO={REPO})")
     print(f"TOTAL {len(cases)} cases, {bad} differences")
     sys.exit(1 if bad else 0)
 
